@@ -54,7 +54,7 @@ BVF_COUNT = ["bvf.leading_zeros", "bvf.leading_ones", "bvf.trailing_zeros", "bvf
 GROUPS["bvf_count"] = G("bvf_count", BVF_PRELUDE,
     BVF_BASE + stub(BVF_CORE) + verify(BVF_COUNT))
 
-GROUPS["bvf_slice"] = G("bvf_slice", BVF_PRELUDE,
+GROUPS["bvf_slice"] = G("bvf_slice", BVF_PRELUDE + ["slice_lemmas.rs"],
     BVF_BASE + stub(BVF_CORE) + verify(["bvf.copy_range"]))
 
 BVF_DEFAULTS = ["bvf.is_empty", "bvf.repeat", "bvf.first", "bvf.last", "bvf.split_off", "bvf.split", "bvf.truncate",
@@ -70,9 +70,41 @@ PROPS = {}
 def shifts_jobs(words, amounts):
     return [("bvf_shift", {"I": w, "T": t}) for w in words for t in amounts]
 
+def jobs(group, words, extra=None):
+    out = []
+    for w in words:
+        c = {"I": w}
+        if extra:
+            c.update(extra)
+        out.append((group, c))
+    return out
+
+W4 = ["u8", "u16", "u32", "u64"]
+WQ = ["u64", "u8"]
+
 PROPS["C05"] = {
-    "quick": shifts_jobs(["u64"], TYPES6) + shifts_jobs(["u8"], ["u8", "u128"]),
-    "thorough": shifts_jobs(["u8", "u16", "u32", "u64"], TYPES6),
+    "quick": shifts_jobs(["u64"], TYPES6) + shifts_jobs(["u8"], ["u8", "u128"]) + jobs("bvf_misc", WQ),
+    "thorough": shifts_jobs(W4, TYPES6) + jobs("bvf_misc", W4),
+}
+PROPS["C06"] = {
+    "quick": jobs("bvf_rot", WQ),
+    "thorough": jobs("bvf_rot", W4),
+}
+PROPS["C16"] = {
+    "quick": jobs("bvf_count", WQ) + jobs("bvf_defaults", WQ) + jobs("int_prims", WQ),
+    "thorough": jobs("bvf_count", W4) + jobs("bvf_defaults", W4) + jobs("int_prims", W4),
+}
+PROPS["C08"] = {
+    "quick": jobs("bvf_slice", WQ) + jobs("bvf_defaults", WQ),
+    "thorough": jobs("bvf_slice", W4) + jobs("bvf_defaults", W4),
+}
+PROPS["C07"] = {
+    "quick": jobs("bvf_core", WQ) + jobs("bvf_defaults", WQ),
+    "thorough": jobs("bvf_core", W4) + jobs("bvf_defaults", W4),
+}
+PROPS["C19"] = {
+    "quick": jobs("bvf_core", WQ) + jobs("bvf_defaults", WQ) + jobs("bvf_slice", WQ),
+    "thorough": jobs("bvf_core", W4) + jobs("bvf_defaults", W4) + jobs("bvf_slice", W4),
 }
 
 # -------------------------------------------------------------------------------------------------
